@@ -230,6 +230,12 @@ def main(argv=None):
         jobs = 1
     else:
         cases = mod.cases(tier, seed)
+        if tier == "thorough":
+            # every depth-1 placement sweep once more with suspension points at bytecode-instruction boundaries
+            skip = getattr(mod, "NO_INSTR_TWIN", ())
+            twins = [dict(c, name=c["name"] + "@instr", gran_default="instr") for c in cases
+                     if "cap" in c and not c.get("gran") and c.get("kind") not in skip]
+            cases = cases + twins
         if a.only:
             cases = [c for c in cases if a.only in c["name"]]
         jobs = max(1, min(a.jobs, len(cases)))
